@@ -9,6 +9,50 @@ sys.path.insert(0, '/verif/gen')
 import selfdiff
 
 
+def miri_stage(chk, bins, tier):
+    """thorough tier: small programs under Miri with a dense schedule; stdout must equal the debug build's"""
+    if tier != 'thorough':
+        return
+    import os
+    import random
+    import mirirun
+    import vlib
+    import gen_gcstress
+    import gen_opcover
+    try:
+        mirirun.prepare()
+    except Exception as e:
+        chk.inconclusive.append('miri unavailable: %r' % (e,))
+        return
+    d = os.path.join(vlib.WORK, 'C05', 'miri')
+    os.makedirs(d, exist_ok=True)
+    progs = {}
+    for k, t in gen_gcstress.loops().items():
+        progs['loop_' + k] = t % {'n': 3}
+    opc = gen_opcover.programs()
+    rng = random.Random(chk.seed)
+    for k in rng.sample(sorted(opc), 40):
+        progs['opc_' + k] = opc[k]
+    jobs = []
+    for k, t in progs.items():
+        p = os.path.join(d, k + '.lay')
+        open(p, 'w').write(t)
+        jobs.append((p, ['--gc', 'every:2', '--sweep', 'alt'], 1500))
+    for r in vlib.pmap(mirirun.run, jobs):
+        chk.evaluations += 1
+        if r['outcome'] in ('timeout', 'unsupported') or r['outcome'].startswith('other'):
+            chk.count('miri_not_judged')
+            continue
+        chk.count('miri_programs')
+        if r['ub']:
+            chk.violation('miri: ' + r['ub'], {'main.lay': open(r['path']).read()}, {'stderr': r.get('stderr_tail', '')})
+            continue
+        base = vlib.lyrun(bins['dbg'], r['path'], ['--gc', 'never'], cwd=d)
+        if base.outcome in ('ok',) and base.out != r['stdout']:
+            chk.violation('miri: stdout differs from the debug build without collection', {'main.lay': open(r['path']).read()},
+                          {'miri': r['stdout'][-500:], 'dbg': base.out[-500:]})
+
+
 def main():
     tier = sys.argv[sys.argv.index('--tier') + 1] if '--tier' in sys.argv else 'quick'
     q = ['--alloc', 'quarantine', '--intern-check']
@@ -37,7 +81,7 @@ def main():
         n_gen_quick=450, n_gen_thorough=9000, cfgs=cfgs,
         stat_keys=('collections', 'objs_freed', 'full_sweeps', 'nursery_sweeps', 'intern_checks', 'allocs'),
         requires=[('collections', 50000, 1000000), ('objs_freed', 50000, 1000000)],
-        point_sweeps=4 if tier == 'quick' else 24, point_cfg='dbg', point_extra=q, timeout=90)
+        point_sweeps=4 if tier == 'quick' else 24, point_cfg='dbg', point_extra=q, timeout=90, post=miri_stage)
 
 
 if __name__ == '__main__':
